@@ -34,13 +34,13 @@ def run(ctx):
         modern = ["aes_256", "aes_256_r6"][ctx.seed % 2]
         if ctx.quick:
             # all algorithms up to length 2, plus length 3 for one revision <= 4 and one revision 5/6 algorithm chosen by the seed
-            cfgs = [("SecHist_len2.cfg", None), ("SecHist_quick.cfg", {"HAlgs": '{"%s", "%s"}' % (legacy, modern)})]
+            cfgs = [("SecHist_quick.cfg", {"DeepAlgs": '{"%s", "%s"}' % (legacy, modern)})]
         else:
             cfgs = [("SecHist_len4.cfg", None), ("SecHist_pw4.cfg", None)]
         tot = {"cases": 0, "probes": 0, "ok_steps": 0, "nontrivial": 0, "rejected_probes": 0}
         for cfg, consts in cfgs:
             cases = os.path.join(d, "cases.ndjson")
-            res = vlib.run_tlc("SecHist", cfg, workers=min(8, vlib.NCPU), timeout=3000, heap="8g", payloads={"CASE": cases}, consts=consts)
+            res = vlib.run_tlc("SecHist", cfg, workers=min(8, vlib.NCPU), timeout=3000, heap="2g" if ctx.quick else "12g", payloads={"CASE": cases}, consts=consts)
             if res.violated:
                 raise vlib.HarnessError("design model SecHist violates its own invariant %s:\n%s" % (res.violated, res.error_state))
             ev.tlc(res, cfg)
